@@ -132,12 +132,17 @@ Definition truthy_o (o : option Z) : bool :=
   match o with Some s => truthy s | None => false end.
 
 (* ---------- Console._render_buffer (the string part) ---------- *)
+(* render_control_test_first (gen fact): the loop tests `not_terminal and is_control` before `if style:`,
+   so a styled control segment is dropped on a non-terminal as well; false = rich 9.10.0 as found, where
+   the test only guarded the unstyled branch. *)
 Definition render_seg (c : cfg) (g : sg) : str :=
-  match sty g with
-  | Some s => if truthy s then esc (csys c) (legacy c) s (txt g)
-              else if negb (term c) && ctl g then [] else txt g
-  | None => if negb (term c) && ctl g then [] else txt g
-  end.
+  if render_control_test_first && negb (term c) && ctl g then []
+  else
+    match sty g with
+    | Some s => if truthy s then esc (csys c) (legacy c) s (txt g)
+                else if negb (term c) && ctl g then [] else txt g
+    | None => if negb (term c) && ctl g then [] else txt g
+    end.
 Definition render_buffer (c : cfg) (b : list sg) : str := concat (map (render_seg c) b).
 
 (* ---------- Console._check_buffer ---------- *)
